@@ -116,3 +116,25 @@ impl HeaderMap {
         self.inner.remove(hash)
     }
 }
+
+#[cfg(feature = "verif-hooks")]
+impl HeaderMap {
+    /// Verification hook: a header map without the 5 s spill timer; `size_limit` counts items.
+    pub fn verif_new_without_timer<P>(
+        tmpdir: Option<P>,
+        size_limit: usize,
+        ibd_finished: Arc<AtomicBool>,
+    ) -> Self
+    where
+        P: AsRef<path::Path>,
+    {
+        Self {
+            inner: Arc::new(HeaderMapKernel::new(tmpdir, size_limit, ibd_finished)),
+        }
+    }
+
+    /// Verification hook: the body of the spill timer tick.
+    pub fn verif_limit_memory(&self) {
+        self.inner.limit_memory();
+    }
+}
